@@ -20,7 +20,7 @@ META = {
     "bounds": {
         "quick": {
             "wallets": "P2SH multisig (cosigner xpubs at m/45'/0) and native P2WSH multisig (xpubs at m/48'/1'/0'/2'), 1-of-2 and 2-of-3, fixed seeds, "
-                       "testnet; cosigner xpubs reach describe either as PSBT global xpub records or as the hdpubkey_map argument",
+                       "testnet; cosigner xpubs reach describe either as PSBT global xpub records or as the hdpubkey_map argument (O5: both at once)",
             "O1": "1..3 inputs x 1..3 outputs; every input (UTXO) amount and every output amount symbolic in [0, 21*10^14] with sum(inputs) > 0; "
                   "change output absent / at each position / two change outputs; payee outputs p2wpkh and p2pkh",
             "O2": "1 input, payee + candidate output whose scriptPubKey hash (20 or 32 bytes) is symbolic; candidate shapes (scriptPubKey kind, attached "
@@ -34,9 +34,22 @@ META = {
                   "bytes (hdpubkey_map) or {another cosigner's, a foreign signer's, zero} (global xpubs); one derivation path: branch in {0,1} x "
                   "index in 0..3; an input carrying BOTH the honest non-witness UTXO record and a witness-UTXO record (written after it) whose "
                   "amount is symbolic, or whose scriptPubKey hash is symbolic (20/32 bytes), assumed different from output prev_index of the "
-                  "previous transaction (twin: consistent double records are summarised with the committed amount)"},
+                  "previous transaction (twin: consistent double records are summarised with the committed amount)",
+            "O4": "honest PSBTs with 2..4 inputs of which two or three spend different outputs (indices 0..2, in either order, with or without a "
+                  "stranger's output between them, to different receive addresses or to the same one) of ONE funding transaction, alone or next to "
+                  "inputs with outpoints of their own / a second shared funding transaction; 1..3 outputs with or without change; every funding-output "
+                  "amount and every output amount symbolic in [0, 21*10^14]; the members carry the same previous transaction (p2sh), the same concrete "
+                  "txid with witness-UTXO records only, or previous transaction + witness-UTXO record (p2wsh); checked: total_input_sats, fee, "
+                  "spend + change + fee, total_output_sats, per-input amount / output index, change_sats, is_change flags",
+            "O5": "hdpubkey_map supplied for all n cosigners AND global xpub records in the PSBT: agreeing / the last cosigner's fingerprint reused "
+                  "for a foreign xpub (instead of, after, before the genuine record) / extra record for an unknown fingerprint / record for an unknown "
+                  "fingerprint instead of the last cosigner's / a foreign xpub (instead of the last cosigner's record, or extra) under a symbolic 4-byte "
+                  "fingerprint; 1 input (script keys: genuine / last cosigner's key replaced by the foreign signer's, named by the last cosigner's or "
+                  "by the foreign signer's own fingerprint), payee + candidate output with symbolic scriptPubKey hash (same three key cases; shapes: "
+                  "the wallet's natural one and p2sh-p2wsh); candidate derivation fingerprints symbolic (4 bytes each) for the same-fingerprint "
+                  "records; amounts symbolic"},
         "thorough": {"same as quick, plus": "symbolic quorum opcodes also with symbolic fingerprints; UTXO / script alterations in both xpub modes; "
-                                            "quorum opcodes in [0x4f, 0x58]"}},
+                                            "quorum opcodes in [0x4f, 0x58]; O5 with symbolic candidate fingerprints for every global-record case"}},
     "outside": [
         "amounts of witness-UTXO-only inputs (native segwit) are not committed by anything the PSBT carries: the summary repeats whatever amount the "
         "PSBT states (inherent to BIP174 v0; noted, not flagged)",
@@ -46,10 +59,15 @@ META = {
         "a p2sh scriptPubKey that commits to the p2wsh program of the attached witness script (p2sh-p2wsh) counts as committing by hash",
         "symbolic public-key bytes inside derivation records, hardened / malformed / longer derivation paths, more than 3 cosigners, partial "
         "signatures, finalised inputs, p2sh-p2wsh inputs",
-        "psbt_helper.create_multisig_psbt (its address / fee cross-checks compare concrete values parsed from hex strings)"],
+        "psbt_helper.create_multisig_psbt (its address / fee cross-checks compare concrete values parsed from hex strings)",
+        "O5: a PSBT whose global xpub records disagree with the supplied hdpubkey_map but whose inputs and change keys all derive from the supplied "
+        "xpubs may be summarised (the supplied map decides) or rejected: neither is flagged; only the agreeing case must be summarised",
+        "which inputs share a funding transaction and at which output indices (O4), and which global xpub records exist (O5), are enumerated shapes"],
     "stubs": ["sha256 / ripemd160 (hash160, hash256) are uninterpreted functions on symbolic input, real on concrete input",
               "concrete secp256k1 results (P + k*G, SEC decompression) are memoised across paths and across replays: the first call runs the real code",
-              "base58check / bech32 encoding of a symbolic scriptPubKey returns an opaque non-empty string", "print() empty"],
+              "base58check / bech32 encoding of a symbolic scriptPubKey returns an opaque non-empty string", "print() empty",
+              "NamedHDPublicKey.is_ancestor: when the xpub record's fingerprint is symbolic the real method body runs with the key's (concrete) raw "
+              "path lifted to the proxy byte type (bytes.startswith cannot take a proxy argument)"],
     "assumptions": ["collision-resistance instances (O3): an altered previous transaction does not hash256 to the original txid; an altered redeem / "
                     "witness script does not hash160 / sha256 to the original's digest",
                     "sum(inputs) > 0 (with a zero total the real code raises ZeroDivisionError while computing the fee percentage)",
@@ -352,6 +370,10 @@ def out_keyset(sc, o):
         # the last cosigner's key is replaced by a foreign signer's key; the metadata names the last cosigner for it
         named = [(c.key(rel), i, rel) for i, c in enumerate(cos[:-1])] + [(foreign.key(rel), sc["n"] - 1, rel)]
         keys = [k for k, _, _ in named]
+    elif kc == "foreign_named":
+        # as foreign_replace, but the metadata names the foreign signer's own fingerprint ("F") for its key
+        named = [(c.key(rel), i, rel) for i, c in enumerate(cos[:-1])] + [(foreign.key(rel), "F", rel)]
+        keys = [k for k, _, _ in named]
     elif kc == "foreign_add":
         # genuine keys plus a foreign key in the script; only the genuine keys are named
         named = [(c.key(rel), i, rel) for i, c in enumerate(cos)]
@@ -376,7 +398,74 @@ def out_keyset(sc, o):
         keys = [k for k, _, _ in named]
     else:
         raise KeyError(kc)
-    return sorted(keys), sorted(named)
+    return sorted(keys), sorted(named, key=lambda t: t[0])
+
+
+def in_signers(sc, inp):
+    """[(owner of the script key, cosigner the derivation record names)] of an input, per key case (default: the wallet's own keys)"""
+    cos, foreign = wallet(sc["kind"], sc["n"])
+    kc = inp.get("keys", "genuine")
+    if kc == "genuine":
+        return [(c, c) for c in cos]
+    if kc == "foreign_replace":
+        # the last cosigner's key is a foreign signer's; the metadata names the last cosigner for it
+        return [(c, c) for c in cos[:-1]] + [(foreign, cos[-1])]
+    if kc == "foreign_named":
+        # ... the metadata names the foreign signer's own fingerprint
+        return [(c, c) for c in cos[:-1]] + [(foreign, foreign)]
+    raise KeyError(kc)
+
+
+def in_script(sc, inp):
+    return multisig_script(0x50 + sc["m"], sorted(o.key(inp["rel"]) for o, _ in in_signers(sc, inp)), 0x50 + sc["n"])
+
+
+def global_records(sc, vals):
+    """PSBT_GLOBAL_XPUB records (78-byte xpub, fingerprint, origin path) in the order they are written, per sc["gx"]"""
+    cos, foreign = wallet(sc["kind"], sc["n"])
+    honest = [(c.xpub.raw(), c.fp, c.base) for c in cos]
+    fx = foreign.xpub.raw()
+    gx = sc.get("gx", "honest")
+    if gx == "honest":
+        return honest
+    if gx == "swap_last":      # the last cosigner's fingerprint is reused for a foreign xpub
+        return honest[:-1] + [(fx, cos[-1].fp, foreign.base)]
+    if gx == "dup_fp":         # an extra record reuses the last cosigner's fingerprint for a foreign xpub (written last)
+        return honest + [(fx, cos[-1].fp, foreign.base)]
+    if gx == "dup_fp_first":   # ... written before the genuine record of that fingerprint
+        return honest[:-1] + [(fx, cos[-1].fp, foreign.base), honest[-1]]
+    if gx == "extra":          # an extra record for an unknown fingerprint
+        return honest + [(fx, foreign.fp, foreign.base)]
+    if gx == "unknown":        # the last cosigner's record is replaced by a record for an unknown fingerprint
+        return honest[:-1] + [(fx, foreign.fp, foreign.base)]
+    if gx == "swap_symfp":     # the last cosigner's record is replaced by a foreign xpub under a solver-chosen fingerprint
+        return honest[:-1] + [(fx, vals["gx_fp"], foreign.base)]
+    if gx == "extra_symfp":    # an extra foreign xpub record under a solver-chosen fingerprint
+        return honest + [(fx, vals["gx_fp"], foreign.base)]
+    raise KeyError(gx)
+
+
+def funding_layout(sc, g):
+    """outputs of the shared funding transaction g: position -> index of the PSBT input that spends it (None: an output that pays
+    a stranger); one stranger output always follows the last spent one"""
+    members = {}
+    for i, inp in enumerate(sc["ins"]):
+        if inp.get("fund") == g:
+            assert inp["vout"] not in members, "two inputs spending the same outpoint"
+            members[inp["vout"]] = i
+    return [members.get(v) for v in range(max(members) + 2)]
+
+
+def funding_tx(sc, vals, g):
+    """the transaction that funded every input of group g: one output per member (its amount, the scriptPubKey of its script)"""
+    mk_spk, hh = (spk_p2sh, _h160) if sc["kind"] == "p2sh" else (spk_p2wsh, _sha256)
+    outs = []
+    for v, i in enumerate(funding_layout(sc, g)):
+        if i is None:
+            outs.append((7000 + v, b"\x00\x14" + label32(f"stranger {g} {v}")[:20]))
+        else:
+            outs.append((vals["in_amt"][i], mk_spk(hh(in_script(sc, sc["ins"][i])))))
+    return spec_tx(2, [(label32(f"funding {g}"), 1, 0xFFFFFFFE)], outs, 0)
 
 
 def build(sc, vals):
@@ -388,13 +477,36 @@ def build(sc, vals):
     model = {"ins": [], "outs": []}
     if sc["mode"] == "xpubs":
         model["xpubs"] = [(c.xpub.raw(), c.fp, c.base) for c in cos]
+    elif sc["mode"] == "pinned":
+        # the reviewer passes hdpubkey_map for all n cosigners AND the PSBT carries global xpub records (possibly tampered)
+        model["xpubs"] = global_records(sc, vals)
     tx_ins, tx_outs = [], []
+    funds = {}
     for i, inp in enumerate(sc["ins"]):
         rel = inp["rel"]
-        script = genuine_script(cos, m, rel)
+        script = in_script(sc, inp)
         amt = vals["in_amt"][i]
         e = {}
-        if kind == "p2sh":
+        vout = 0
+        if inp.get("fund") is not None:
+            # several inputs spend different outputs of ONE funding transaction: every member carries the same previous transaction
+            # (p2sh; p2wsh with sc["fund_tx"]) / the same concrete txid (p2wsh, witness UTXO only) and its own output index
+            g, vout = inp["fund"], inp["vout"]
+            if g not in funds:
+                if kind == "p2sh" or sc.get("fund_tx"):
+                    ftx = funding_tx(sc, vals, g)
+                    funds[g] = (ftx, hhash256(ftx)[::-1])
+                else:
+                    funds[g] = (None, label32(f"fund {g}"))
+            ftx, txid = funds[g]
+            if ftx is not None:
+                e["utxo_tx"] = ftx
+            if kind == "p2sh":
+                e["redeem"] = script
+            else:
+                e["utxo_out"] = spec_txout(amt, spk_p2wsh(_sha256(script)))
+                e["witness"] = script
+        elif kind == "p2sh":
             spk = spk_p2sh(_h160(script))
             f = {"version": 2, "seq": 0xFFFFFFFE, "amt0": amt, "h0": _h160(script), "amt1": 5000 + i, "lock": 0}
             prev = lambda f: spec_tx(f["version"], [(label32(f"funding {i}"), 1, f["seq"])],  # noqa
@@ -427,13 +539,13 @@ def build(sc, vals):
             keys[t["pos"]] = t["key"]
             e["redeem" if kind == "p2sh" else "witness"] = multisig_script(t["m_op"], keys, t["n_op"])
         derivs = []
-        for j, c in enumerate(cos):
-            fp = tam.get("in_fp", {}).get(f"{i}.{j}", c.fp)
+        for j, (owner, named) in enumerate(in_signers(sc, inp)):
+            fp = tam.get("in_fp", {}).get(f"{i}.{j}", named.fp)
             r = tam.get("in_path", {}).get(f"{i}.{j}", rel)
-            derivs.append((c.key(rel), fp, c.base + list(r)))
+            derivs.append((owner.key(rel), fp, named.base + list(r)))
         e["derivs"] = sorted(derivs, key=lambda d: d[0])
         model["ins"].append(e)
-        tx_ins.append((txid, 0, SEQ))
+        tx_ins.append((txid, vout, SEQ))
     info = {"outs": []}
     for k, o in enumerate(sc["outs"]):
         amt = vals["out_amt"][k]
@@ -475,10 +587,11 @@ def build(sc, vals):
             derivs = []
             dinfo = []
             for j, (sec, ci, rel) in enumerate(named):
-                fp = vals.get("ofp", {}).get(f"{k}.{j}", cos[ci].fp)
+                who = foreign if ci == "F" else cos[ci]
+                fp = vals.get("ofp", {}).get(f"{k}.{j}", who.fp)
                 fp = tam.get("out_fp", {}).get(f"{k}.{j}", fp)
                 r = tam.get("out_path", {}).get(f"{k}.{j}", rel)
-                derivs.append((sec, fp, cos[ci].base + list(r)))
+                derivs.append((sec, fp, who.base + list(r)))
                 dinfo.append((fp, list(r)))
             e["derivs"] = derivs
             info["outs"].append({"h": h, "spk": o["spk"], "derivs": dinfo, "script": script, "attach": attach})
@@ -578,6 +691,17 @@ def sb():
                 return SymAddr("<address of a symbolic scriptPubKey>")
             return fn(raw, *a, **k)
         return enc
+    # bytes.startswith(<symbolic bytes>) cannot be shadowed on a real bytes object: when the xpub record's fingerprint is symbolic, the
+    # REAL is_ancestor body runs on the key's raw path lifted to the proxy type (same bytes)
+    orig_anc = ps.NamedHDPublicKey.is_ancestor
+
+    def is_ancestor(self, named_pubkey):
+        if isinstance(self.raw_path, SBytes) and isinstance(named_pubkey.raw_path, (bytes, bytearray)):
+            class _Lifted:
+                raw_path = SBytes(list(named_pubkey.raw_path))
+            return orig_anc(self, _Lifted)
+        return orig_anc(self, named_pubkey)
+    ps.NamedHDPublicKey.is_ancestor = is_ancestor
     sc.encode_base58_checksum = wrap_addr(sc.encode_base58_checksum)
     sc.encode_bech32_checksum = wrap_addr(sc.encode_bech32_checksum)
     _LOADED.update(psbt=ps, script=sc, hd=hd, ecc=ecc)
@@ -621,7 +745,7 @@ def run_real(sc, raw, mods=None, native=False):
         dct = SymKeyDict
     try:
         p = PSBT.parse(BytesIO(raw), network="testnet")
-        if sc["mode"] == "map":
+        if sc["mode"] in ("map", "pinned"):
             d = p.describe_basic_multisig(hdpubkey_map=dct({c.fp.hex(): mk(c) for c in cos}))
         else:
             d = p.describe_basic_multisig()
@@ -705,6 +829,11 @@ def facts(sc, vals):
                           "distinct_fingerprints": len(set(fps)), "named": len(fps),
                           "m_op": script[0], "n_op": script[-2], "script_keys": (len(script) - 3) // 34,
                           "commit": bool(commit_cond(sc, oi))})
+    if sc["mode"] == "pinned":
+        f["global_xpub_records"] = sc.get("gx")
+        f["input_keys"] = [inp.get("keys", "genuine") for inp in sc["ins"]]
+    if any(inp.get("fund") is not None for inp in sc["ins"]):
+        f["shared_funding"] = [[inp.get("fund"), inp.get("vout", 0)] for inp in sc["ins"]]
     f["tampered"] = sorted(vals.get("tamper", {}).keys())
     for i, t in vals.get("tamper", {}).get("both_utxo", {}).items():
         # which field of the additional witness-UTXO record differs from output 0 of the previous transaction
@@ -926,7 +1055,230 @@ def _ob_tamper(kind, m, n, mode, whats):
     return r
 
 
+# ---------------------------------------------------------------------------------------- O4 inputs sharing a funding transaction
+
+def _funding_path(sc):
+    """honest PSBT in which two or more inputs spend different outputs of ONE previous transaction (each output pays the wallet):
+    every input counts, with the amount of the output it spends"""
+    n_in, n_out = len(sc["ins"]), len(sc["outs"])
+    vals = _amounts(n_in, n_out)
+    tin = sum(vals["in_amt"])
+    tout = sum(vals["out_amt"])
+    assume(tin > 0)
+    model, info = build(sc, vals)
+    kind, d = run_real(sc, spec_psbt(model))
+    w = _witness("funding", sc, vals)
+    if kind == "rejected":
+        check(False, f"honest PSBT whose inputs share a funding transaction rejected ({d})", witness=w)
+        return "rejected:" + d
+    check(d["total_input_sats"] == tin, "total_input_sats != sum of the funding outputs spent", witness=w)
+    check(d["tx_fee_sats"] == tin - tout, "tx_fee_sats != sum(inputs) - sum(outputs)", witness=w)
+    check(d["spend_sats"] + d["change_sats"] + d["tx_fee_sats"] == tin, "spend + change + fee != sum(inputs)", witness=w)
+    check(d["spend_sats"] + d["change_sats"] + d["tx_fee_sats"] == d["total_input_sats"], "spend + change + fee != total_input_sats", witness=w)
+    check(d["total_output_sats"] == tout, "total_output_sats != sum(outputs)", witness=w)
+    check(len(d["inputs_desc"]) == n_in, "number of inputs listed", witness=w)
+    for i, inp in enumerate(sc["ins"]):
+        check(d["inputs_desc"][i]["sats"] == vals["in_amt"][i], "amount listed for an input != amount of the funding output it spends", witness=w)
+        check(d["inputs_desc"][i]["prev_idx"] == inp.get("vout", 0), "output index listed for an input", witness=w)
+    change = [k for k, o in enumerate(sc["outs"]) if o["type"] == "change"]
+    check(d["change_sats"] == sum(vals["out_amt"][k] for k in change), "change_sats != amount of the change output", witness=w)
+    for k, o in enumerate(sc["outs"]):
+        check(d["outputs_desc"][k]["is_change"] == (o["type"] == "change"), "is_change flag of an honest output", witness=w)
+    return "ok"
+
+
+def funding_scenarios(kind, m, n):
+    """(inputs, outputs) shapes: which inputs share a funding transaction and which of its outputs they spend"""
+    A = lambda v, j: {"rel": [0, j], "fund": "A", "vout": v}  # noqa
+    B = lambda v, j: {"rel": [0, j], "fund": "B", "vout": v}  # noqa
+    own = lambda j: {"rel": [0, j]}  # noqa   (an input with a funding transaction / outpoint of its own)
+    in_shapes = [
+        [A(0, 0), A(1, 1)],                  # outputs 0 and 1
+        [A(1, 0), A(0, 1)],                  # ... listed in the other order
+        [A(0, 0), A(2, 1)],                  # a stranger's output between them
+        [A(0, 0), A(1, 0)],                  # both outputs pay the SAME receive address
+        [A(0, 0), A(1, 1), A(2, 2)],         # three outputs of one transaction
+        [A(0, 0), own(1), A(1, 2)],          # shared pair around an unrelated input
+        [own(0), A(0, 1), A(1, 2)],
+        [A(1, 0), A(0, 1), own(2)],
+        [A(0, 0), B(0, 1), A(1, 2)],         # two funding transactions, one shared
+        [A(0, 0), A(1, 1), B(0, 2), B(1, 3)],  # two shared pairs
+    ]
+    spend = lambda k: {"type": "spend", "spk": "p2wpkh" if k % 2 == 0 else "p2pkh"}  # noqa
+    out_shapes = [[spend(0), _change_out(kind, 0)], [spend(0)], [_change_out(kind, 0), spend(1), spend(2)]]
+    x = 0
+    for ins in in_shapes:
+        for fund_tx in ((True,) if kind == "p2sh" else (False, True)):
+            outs = out_shapes[x % len(out_shapes)] if len(ins) > 2 else out_shapes[0]
+            sc = {"kind": kind, "m": m, "n": n, "mode": "xpubs" if x % 2 == 0 else "map", "ins": ins, "outs": outs}
+            if fund_tx and kind != "p2sh":
+                sc["fund_tx"] = True
+            x += 1
+            yield sc
+
+
+def _ob_funding(kind, m, n):
+    runs = []
+    for sc in funding_scenarios(kind, m, n):
+        # on the current tree every query of this shape is decided in milliseconds; a tree that compares / hashes the (symbolic) txids
+        # gets hard LIA queries over hash bytes: short timeout, and a few violation candidates per scenario are enough
+        runs.append(sym_run(lambda: _funding_path(sc), mode="int", expect_classes=["ok"], timeout_ms=5000, max_violations=4))
+    r = merge_runs(runs)
+    r["sample"] = {"wallet": f"{kind} {m}-of-{n}", "inputs": "2..4, at least two of them spending different outputs (indices 0..2) of one funding "
+                   "transaction; every spent output pays the wallet", "amounts": f"every funding-output amount and every output amount symbolic in [0, {MAX_SATS}]",
+                   "UTXO records": "previous transaction (p2sh) / witness UTXO only, one concrete shared txid / previous transaction + witness UTXO (p2wsh)",
+                   "scenarios": len(runs)}
+    return r
+
+
+# ---------------------------------------------------------------------------------------- O5 pinned xpubs (hdpubkey_map AND global xpub records)
+
+def _pinned_path(sc):
+    """the reviewer passes hdpubkey_map for all n cosigners; the PSBT also carries global xpub records (sc["gx"]: honest or tampered).
+    The supplied map decides: inputs whose script holds a foreign key are never summarised, an output is labelled change only if
+    its scriptPubKey commits to one key per PINNED cosigner xpub"""
+    o = sc["outs"][1]
+    vals = _amounts(1, 2)
+    assume(vals["in_amt"][0] > 0)
+    vals["h"] = {"1": SBytes.sym("spk_hash", 20 if o["spk"] == "p2sh" else 32)}
+    if sc.get("sym_fp"):
+        _, named = out_keyset(sc, o)
+        vals["ofp"] = {f"1.{j}": SBytes.sym(f"fp{j}", 4) for j in range(len(named))}
+    if sc["gx"].endswith("symfp"):
+        vals["gx_fp"] = SBytes.sym("gx.fp", 4)
+    model, info = build(sc, vals)
+    kind, d = run_real(sc, spec_psbt(model))
+    w = _witness("pinned", sc, vals)
+    if kind == "rejected":
+        check(True, "rejected")
+        return "rejected:" + d
+    foreign_in = [i for i, inp in enumerate(sc["ins"]) if inp.get("keys", "genuine") != "genuine"]
+    check(not foreign_in, "an input whose script holds a key that no pinned cosigner xpub derives was summarised as the wallet's", witness=w)
+    check(d["outputs_desc"][0]["is_change"] is False, "payee output labelled change", witness=w)
+    check(d["total_input_sats"] == vals["in_amt"][0], "total_input_sats", witness=w)
+    check(d["spend_sats"] + d["change_sats"] + d["tx_fee_sats"] == vals["in_amt"][0], "spend + change + fee != input", witness=w)
+    if d["outputs_desc"][1]["is_change"]:
+        check(commit_cond(sc, info["outs"][1]), "output labelled change, but its scriptPubKey does not commit to an m-of-n script with one key per "
+                                                "cosigner xpub of the supplied hdpubkey_map", witness=w)
+        return "ok:change"
+    check(True, "not labelled change")
+    return "ok:spend"
+
+
+GX_GROUPS = {"agree": ("honest", "extra", "unknown"), "same_fp": ("swap_last", "dup_fp", "dup_fp_first"), "sym_fp": ("swap_symfp", "extra_symfp")}
+# (input key case, candidate output key case)
+PINNED_KEYS = [("genuine", "genuine"), ("genuine", "foreign_replace"), ("genuine", "foreign_named"), ("foreign_replace", "genuine"),
+               ("foreign_replace", "foreign_replace"), ("foreign_named", "foreign_named")]
+
+
+def _ob_pinned(kind, m, n, group, sym_fp):
+    runs = []
+    natural = ("p2sh", "redeem") if kind == "p2sh" else ("p2wsh", "witness")
+    for gx in GX_GROUPS[group]:
+        for kin, kout in PINNED_KEYS:
+            for spk, attach in (natural, ("p2sh", "both")):
+                if (sym_fp or group == "sym_fp") and (spk, attach) != natural:
+                    continue
+                sc = {"kind": kind, "m": m, "n": n, "mode": "pinned", "gx": gx, "ins": [{"rel": [0, 0], "keys": kin}],
+                      "outs": [{"type": "spend"}, {"type": "change", "spk": spk, "attach": attach, "keys": kout, "rel": [1, 2]}]}
+                if sym_fp:
+                    sc["sym_fp"] = True
+                # twin: with global records that leave every genuine key verifiable, the honest PSBT is summarised and its change labelled
+                twin = kin == "genuine" and kout == "genuine" and gx not in ("swap_last", "dup_fp_first")
+                # a tree that lets PSBT-supplied records into the lookup table hashes symbolic fingerprints (one path per value, without
+                # end): bounded -- on the current tree a scenario has at most 23 paths
+                runs.append(sym_run(lambda: _pinned_path(sc), expect_classes=["ok:change"] if twin else None, max_paths=120, wall_s=30))
+        if not sym_fp and gx == "honest":
+            # twin: summary arithmetic of an honest 2-input PSBT with change, xpubs supplied both ways and agreeing
+            sc = {"kind": kind, "m": m, "n": n, "mode": "pinned", "gx": gx, "ins": [{"rel": [0, 0]}, {"rel": [0, 1]}],
+                  "outs": [{"type": "spend"}, _change_out(kind, 1)]}
+            runs.append(sym_run(lambda: _arith_path(sc), mode="int", expect_classes=["ok"]))
+    r = merge_runs(runs)
+    r["sample"] = {"wallet": f"{kind} {m}-of-{n}", "xpubs via": "hdpubkey_map for all n cosigners AND PSBT global xpub records",
+                   "global xpub records": list(GX_GROUPS[group]), "(input keys, candidate output keys)": PINNED_KEYS,
+                   "candidate output": "scriptPubKey hash bytes symbolic", "derivation fingerprints of the candidate": "symbolic" if sym_fp else "as the key case states",
+                   "scenarios": len(runs)}
+    return r
+
+
 # ---------------------------------------------------------------------------------------- replay (native code, concrete oracle)
+
+def _rd_varint(b, p):
+    v = b[p]
+    if v < 0xFD:
+        return v, p + 1
+    w = {0xFD: 2, 0xFE: 4, 0xFF: 8}[v]
+    return int.from_bytes(b[p + 1:p + 1 + w], "little"), p + 1 + w
+
+
+def decode_tx_outs(raw):
+    """[(amount, scriptPubKey)] of a legacy-serialised transaction (independent reader, plain bytes)"""
+    p = 4
+    n_in, p = _rd_varint(raw, p)
+    for _ in range(n_in):
+        p += 36
+        ln, p = _rd_varint(raw, p)
+        p += ln + 4
+    n_out, p = _rd_varint(raw, p)
+    outs = []
+    for _ in range(n_out):
+        amt = int.from_bytes(raw[p:p + 8], "little")
+        ln, p = _rd_varint(raw, p + 8)
+        outs.append((amt, raw[p:p + ln]))
+        p += ln
+    assert p + 4 == len(raw)
+    return outs
+
+
+def decode_outpoints(raw):
+    """[(txid as displayed, output index)] of the inputs of a legacy-serialised transaction"""
+    p = 4
+    n_in, p = _rd_varint(raw, p)
+    res = []
+    for _ in range(n_in):
+        res.append((raw[p:p + 32][::-1], int.from_bytes(raw[p + 32:p + 36], "little")))
+        ln, p = _rd_varint(raw, p + 36)
+        p += ln + 4
+    return res
+
+
+def script_keys(script):
+    """the 33-byte pushes of a raw multisig script"""
+    return [script[p + 1:p + 34] for p in range(1, len(script) - 2, 34)]
+
+
+def utxo_facts(sc, model):
+    """what the PSBT's own UTXO records say about every input, read back from the serialised fields (plain bytes): outpoint, the
+    amount and scriptPubKey of the output it spends; plus the checks that make the scenario what it claims to be"""
+    outpoints = decode_outpoints(bytes(model["tx"]))
+    res, problems = [], []
+    for i, (e, inp) in enumerate(zip(model["ins"], sc["ins"])):
+        txid, vout = outpoints[i]
+        amt = spk = None
+        if e.get("utxo_tx") is not None:
+            ftx = bytes(e["utxo_tx"])
+            if _hash256(ftx)[::-1] != txid:
+                problems.append(f"input {i}: previous transaction does not hash to the outpoint")
+            amt, spk = decode_tx_outs(ftx)[vout]
+        if e.get("utxo_out") is not None:
+            o = bytes(e["utxo_out"])
+            a2, s2 = int.from_bytes(o[:8], "little"), o[9:]
+            if amt is not None and (a2, s2) != (amt, spk):
+                problems.append(f"input {i}: the two UTXO records disagree")
+            amt, spk = a2, s2
+        script = bytes(e.get("redeem") or e.get("witness"))
+        want = spk_p2sh(_h160(script)) if sc["kind"] == "p2sh" else spk_p2wsh(_sha256(script))
+        if spk != want:
+            problems.append(f"input {i}: the spent output does not pay the input's script")
+        res.append({"txid": txid.hex(), "vout": vout, "sats": amt, "fund": inp.get("fund")})
+    for g in {r["fund"] for r in res if r["fund"] is not None}:
+        grp = [r for r in res if r["fund"] == g]
+        if len({r["txid"] for r in grp}) != 1 or len({r["vout"] for r in grp}) != len(grp):
+            problems.append(f"funding group {g}: members do not spend distinct outputs of one transaction")
+        if any(r["txid"] == grp[0]["txid"] for r in res if r["fund"] != g):
+            problems.append(f"funding group {g}: a non-member has the same txid")
+    return res, problems
+
 
 def replay_summary(w):
     sc = w["sc"]
@@ -935,6 +1287,59 @@ def replay_summary(w):
     raw = bytes(spec_psbt(model))
     res, d = run_real(sc, raw, native=True)
     claim = w["claim"]
+    if claim == "funding":
+        # independent computation: the input total is the sum of the funding outputs that the outpoints name, read from the PSBT bytes
+        ins, problems = utxo_facts(sc, model)
+        if problems or [r["sats"] for r in ins] != list(vals["in_amt"]):
+            return {"violated": None, "error": "scenario not rebuilt faithfully: " + "; ".join(problems or ["amounts"])}
+        tin = sum(r["sats"] for r in ins)
+        tout = sum(a for a, _ in decode_tx_outs(bytes(model["tx"])))
+        where = ", ".join(f"{r['txid'][:12]}..:{r['vout']}={r['sats']}" for r in ins)
+        if res == "rejected":
+            return {"violated": True, "observed": f"honest PSBT spending {where} rejected with {d}"}
+        bad = []
+        if d["total_input_sats"] != tin:
+            bad.append(f"total_input_sats {d['total_input_sats']} != {tin}")
+        if d["tx_fee_sats"] != tin - tout:
+            bad.append(f"tx_fee_sats {d['tx_fee_sats']} != {tin} - {tout}")
+        if d["spend_sats"] + d["change_sats"] + d["tx_fee_sats"] != tin:
+            bad.append(f"spend {d['spend_sats']} + change {d['change_sats']} + fee {d['tx_fee_sats']} != inputs {tin}")
+        if d["spend_sats"] + d["change_sats"] + d["tx_fee_sats"] != d["total_input_sats"]:
+            bad.append(f"spend {d['spend_sats']} + change {d['change_sats']} + fee {d['tx_fee_sats']} != total_input_sats {d['total_input_sats']}")
+        if d["total_output_sats"] != tout:
+            bad.append(f"total_output_sats {d['total_output_sats']} != {tout}")
+        listed = [(x["prev_txhash"], x["prev_idx"], x["sats"]) for x in d["inputs_desc"]]
+        if listed != [(r["txid"], r["vout"], r["sats"]) for r in ins]:
+            bad.append(f"inputs listed as {listed}")
+        change = [k for k, o in enumerate(sc["outs"]) if o["type"] == "change"]
+        if d["change_sats"] != sum(vals["out_amt"][k] for k in change):
+            bad.append(f"change_sats {d['change_sats']}")
+        for k, o in enumerate(sc["outs"]):
+            if d["outputs_desc"][k]["is_change"] != (o["type"] == "change"):
+                bad.append(f"output {k} is_change={d['outputs_desc'][k]['is_change']}")
+        return {"violated": bool(bad), "observed": (f"inputs {where}: " + "; ".join(bad)) if bad else "summary arithmetic agrees"}
+    if claim == "pinned":
+        if res == "rejected":
+            return {"violated": False, "observed": f"rejected with {d}"}
+        cos, _ = wallet(sc["kind"], sc["n"])
+        bad = []
+        for i, (e, inp) in enumerate(zip(model["ins"], sc["ins"])):
+            # the wallet the reviewer pinned owns exactly the m-of-n script over one key per supplied xpub at the stated path
+            have = script_keys(bytes(e.get("redeem") or e.get("witness")))
+            want = sorted(c.key(inp["rel"]) for c in cos)
+            if sorted(have) != want:
+                strangers = [k.hex() for k in have if k not in want]
+                bad.append(f"input {i} summarised as the wallet's although its script key(s) {strangers} derive from none of the xpubs in the "
+                           f"supplied hdpubkey_map (global xpub records: {sc['gx']})")
+        for k, oi in enumerate(info["outs"]):
+            if d["outputs_desc"][k]["is_change"] and (oi is None or not commit_cond(sc, oi)):
+                bad.append(f"output {k} ({d['outputs_desc'][k]['addr']}, {d['outputs_desc'][k]['sats']} sats) is labelled change, but no m-of-n script "
+                           f"with one key per xpub of the supplied hdpubkey_map at the stated paths hashes to its scriptPubKey "
+                           f"(hash {bytes(oi['h']).hex() if oi else None}; global xpub records: {sc['gx']})")
+        tin = sum(vals["in_amt"])
+        if d["total_input_sats"] != tin or d["spend_sats"] + d["change_sats"] + d["tx_fee_sats"] != tin:
+            bad.append("summary arithmetic")
+        return {"violated": bool(bad), "observed": "; ".join(bad) or "the supplied hdpubkey_map decided"}
     if claim == "arith":
         tin, tout = sum(vals["in_amt"]), sum(vals["out_amt"])
         nchange = sum(1 for o in sc["outs"] if o["type"] == "change")
@@ -1022,6 +1427,14 @@ def ob_tamper(**k):
     return _representatives(_ob_tamper(**k))
 
 
+def ob_funding(**k):
+    return _representatives(_ob_funding(**k))
+
+
+def ob_pinned(**k):
+    return _representatives(_ob_pinned(**k))
+
+
 WALLETS = [("p2sh", 1, 2), ("p2sh", 2, 3), ("p2wsh", 1, 2), ("p2wsh", 2, 3)]
 KEYCASES = ["genuine", "one", "two_of_one_aba", "foreign_replace", "foreign_add", "drop"]
 
@@ -1047,4 +1460,9 @@ def obligations(tier):
             else:
                 whats = whats + ["both_utxo_consistent", "both_utxo_amt", "both_utxo_spk"]
             obs.append(Ob("O3-tamper", ob_tamper, {"kind": kind, "m": m, "n": n, "mode": mode, "whats": tuple(whats)}, replay="summary", budget_s=1200))
+    for kind, m, n in WALLETS:
+        obs.append(Ob("O4-shared-funding", ob_funding, {"kind": kind, "m": m, "n": n}, replay="summary", budget_s=1200))
+    for kind, m, n in WALLETS:
+        for group, sym_fp in (("agree", False), ("same_fp", False), ("sym_fp", False), ("same_fp", True)) + ((("agree", True), ("sym_fp", True)) if not q else ()):
+            obs.append(Ob("O5-pinned-xpubs", ob_pinned, {"kind": kind, "m": m, "n": n, "group": group, "sym_fp": sym_fp}, replay="summary", budget_s=1200))
     return obs
